@@ -4,7 +4,7 @@
    Spec/C01Wf.v; proofs: Proofs/C01Holes.v, Proofs/C01Skeleton.v. *)
 From Coq Require Import String Ascii List Bool NArith.
 Require Import TT.Model.Str TT.Model.Pipeline TT.Spec.TsLex TT.Spec.TsModule TT.Spec.TsObs TT.Spec.C01Wf TT.Model.C01Emit.
-Require Import TT.Model.TypeParse TT.Proofs.C01Holes TT.Proofs.C01Skeleton TT.Proofs.C01TypeHole.
+Require Import TT.Model.TypeParse TT.Proofs.LexFacts TT.Proofs.C01Holes TT.Proofs.C01Skeleton TT.Proofs.C01TypeHole TT.Proofs.C01Lex.
 Import ListNotations.
 
 (* ---- hole lemmas (C01_holes, per class, on the complement of the recorded classes) ---- *)
@@ -102,6 +102,15 @@ Theorem C01_type_hole_render : forall g t rest,
   exists ty, ptype (rtoks g t ++ rest) = Some (ty, rest) /\ ty_ok ty = true.
 Proof. exact render_ptype. Qed.
 
+(* ---- type holes at TEXT level: the lexer (Spec/TsLex.v) turns the text the renderer prints into exactly those
+   tokens, in front of every admissible continuation (space, semicolon, comma, closing bracket, angle bracket not
+   followed by an equals sign, newline); so the boolean hole predicate of the chunk model holds for every type with
+   identifier leaves and nesting below the parser budget. Built on Proofs/LexFacts.v (token-boundary composition). ---- *)
+Theorem C01_type_hole_lex : forall g t, leaves_ok g t = true -> lexes Pc (render_m g t) (rtoks g t).
+Proof. exact lexes_render. Qed.
+Theorem C01_type_hole_text : forall g t, leaves_ok g t = true -> tdepth t < TYF -> hole_ok HType (render_m g t) = true.
+Proof. exact type_hole_text. Qed.
+
 (* ---- skeleton, token level ---- *)
 (* interface template: any name, any members with good keys (bare or quoted) and type tokens consumed by ptype *)
 Theorem C01_skeleton_interface : forall name ms rest,
@@ -125,6 +134,21 @@ Theorem C01_enum_alias_ok : forall name lits rest,
   exists t, p_item (enum_toks name lits ++ rest) = Some (ITypeAlias name [] t, rest) /\ item_ok (ITypeAlias name [] t) = true.
 Proof. exact enum_alias_ok. Qed.
 
+(* params interface template: members as above, channel members key: Channel<T>; and the fixed index signature;
+   on the model's commands every hole premise is discharged *)
+Theorem C01_skeleton_params_interface : forall name ms rest,
+  is_binding_name name = true -> Forall good_member ms ->
+  exists asts, p_item (params_iface_toks name ms ++ rest) = Some (IInterface name [] None asts [index_sig], rest) /\
+               Forall2 member_matches ms asts /\ item_ok (IInterface name [] None asts [index_sig]) = true.
+Proof. exact skeleton_params_interface. Qed.
+Theorem C01_params_interface_tokens_ok : forall g c rest,
+  is_binding_name (ty_ts c ++ L "Params") = true ->
+  forallb (fun p => type_in_budget g (snd p)) (c_values c) = true ->
+  forallb (fun ch => chan_in_budget g (snd ch)) (c_channels c) = true ->
+  exists asts, p_item (cmd_params_toks g c ++ rest) = Some (IInterface (ty_ts c ++ L "Params") [] None asts [index_sig], rest) /\
+               item_ok (IInterface (ty_ts c ++ L "Params") [] None asts [index_sig]) = true.
+Proof. exact params_interface_tokens_ok. Qed.
+
 (* index.ts, the whole file *)
 Theorem C01_index_tokens_ok : forall ms,
   p_items (S (List.length (flat_map star_toks ms))) (flat_map star_toks ms) [] = Some (map IExportStar ms) /\
@@ -134,8 +158,8 @@ Proof. exact index_tokens_ok. Qed.
 (* what remains unproved (stated, not asserted):
    - the text level: that lexing the concatenated chunk texts equals lexing chunk by chunk
      (C01_lex_compositional_full_statement; evaluated at run time on every generated case);
-   - the item templates not covered above: params interface (members as in the interface theorem plus channel
-     members and the fixed index signature), Zod struct / enum / params schemas, the wrapper functions of commands.ts
+   - for the fixed template text and the name / key / literal holes (type holes are done: C01_type_hole_lex);
+   - the item templates not covered above: Zod struct / enum / params schemas, the wrapper functions of commands.ts
      with their bodies, the listeners of events.ts. For these the run-time oracle and the token-for-token
      correspondence decide every generated case. *)
 Definition C01_skeleton_full_statement : Prop :=
@@ -167,6 +191,11 @@ Example C01_ex_tokens :
   forallb (fun f => type_in_budget g0 (cf_ty f)) (listed_fields ex_struct) = true /\
   lex_module (render_m g0 (pts (L "HashMap<String, Vec<Option<(User, i32)>>>"))) = rtoks g0 (pts (L "HashMap<String, Vec<Option<(User, i32)>>>")).
 Proof. exact tokens_example. Qed.
+Example C01_ex_params_tokens :
+  lexed (params_iface_chunks g0 ex_cmd) = cmd_params_toks g0 ex_cmd /\ toks_of (params_iface_chunks g0 ex_cmd) = cmd_params_toks g0 ex_cmd /\
+  is_binding_name (ty_ts ex_cmd ++ L "Params") = true /\
+  forallb (fun p => type_in_budget g0 (snd p)) (c_values ex_cmd) = true /\ forallb (fun ch => chan_in_budget g0 (snd ch)) (c_channels ex_cmd) = true.
+Proof. exact params_tokens_example. Qed.
 Example C01_ex_index : lexed (all_chunks (index_file true)) = flat_map star_toks [L "./types"; L "./commands"; L "./events"].
 Proof. exact index_example. Qed.
 Example C01_ex_skeleton : c01_ok (text (interface_chunks g0 ex_struct)) = true /\ bad_holes (interface_chunks g0 ex_struct) = [] /\
@@ -191,7 +220,11 @@ Print Assumptions C01_str_hole_enum_witness.
 Print Assumptions C01_type_hole_refuted.
 Print Assumptions C01_type_hole_witnesses.
 Print Assumptions C01_type_hole_render.
+Print Assumptions C01_type_hole_lex.
+Print Assumptions C01_type_hole_text.
 Print Assumptions C01_skeleton_interface.
 Print Assumptions C01_interface_tokens_ok.
 Print Assumptions C01_enum_alias_ok.
+Print Assumptions C01_skeleton_params_interface.
+Print Assumptions C01_params_interface_tokens_ok.
 Print Assumptions C01_index_tokens_ok.
